@@ -28,6 +28,7 @@ from .. import core, mmx, proto as P
 NS = (0, 1, 2, 63, 64, 65, 127, 128, 129, 300)
 BASE = 2000  # first data type id used
 FAILT = 1999  # Q's type: published while Q cannot accept data
+POPULATION = ("dup-refused", "twin-join", "twin-one-leaves", "sender-leaves", "pid-change")
 PIDS = {21: 777, 22: 888, 60: 999}
 
 
@@ -48,6 +49,8 @@ def contents(tier: str) -> List[Tuple[int, str]]:
     out.append((0, "dup-refused"))
     out.append((0, "twin-join"))
     out.append((0, "twin-one-leaves"))
+    out.append((0, "sender-leaves"))
+    out.append((0, "pid-change"))
     return out
 
 
@@ -58,7 +61,7 @@ def interval_frames(tc, n: int, pattern: str, salt: int) -> List[bytes]:
     if pattern == "edge":
         half = P.MAX_MESSAGE_TYPES // 2
         return [P.mkframe(mt, b"", timecode=tc, src_mod_id=21) for mt in (half - 1, half, half + 1, P.MAX_MESSAGE_TYPES - 1, P.MAX_MESSAGE_TYPES - 2)]
-    if pattern in ("dup-refused", "twin-join", "twin-one-leaves"):
+    if pattern in POPULATION:
         return []
     if pattern == "failed":
         return [P.mkframe(FAILT, b"x" * 8, timecode=tc, src_mod_id=21) for k in range(n)]
@@ -112,6 +115,30 @@ def execute(case) -> Dict[str, Any]:
                 w.settle()
                 twins.append(T)
             want_pids[23] = 555
+        elif pattern == "sender-leaves":
+            # a module connects, publishes and is gone again before the interval's reports: what it sent was forwarded and counts
+            X = w.client(f"S{nconn[0]}", None).connect()
+            w.settle()
+            X.send(P.mkframe(P.MT_CONNECT, P.p_connect(), timecode=tc, src_mod_id=24))
+            w.settle()
+            X.send(b"".join(P.mkframe(BASE + 700 + (k % 2), b"bye", timecode=tc, src_mod_id=24) for k in range(5)))
+            w.settle(limit=10 ** 6)
+            how = nconn[0] % 3
+            if how == 0:
+                X.send(P.mkframe(P.MT_DISCONNECT, b"", timecode=tc, src_mod_id=24))
+                w.settle()
+                X.fin()
+            elif how == 1:
+                X.fin()
+            else:
+                X.rst()
+            w.settle()
+        elif pattern == "pid-change":
+            # a connected module announces another process id (a program that forks after connecting)
+            newpid = 888 + nconn[0]
+            Q.send(P.mkframe(P.MT_MODULE_READY, P.P_READY.pack(newpid), timecode=tc, src_mod_id=22))
+            w.settle()
+            want_pids[22] = newpid
         elif pattern == "twin-one-leaves" and twins:
             T = twins.pop()
             T.send(P.mkframe(P.MT_DISCONNECT, b"", timecode=tc, src_mod_id=23))
@@ -220,7 +247,7 @@ def execute(case) -> Dict[str, Any]:
                     observe()
                 Pp.send(big)
                 w.settle()
-            elif pattern in ("dup-refused", "twin-join", "twin-one-leaves"):
+            elif pattern in POPULATION:
                 population_event(pattern)
                 observe()
             elif pattern == "failed":
